@@ -162,6 +162,10 @@ impl<'e> Sim<'e> {
         sim
     }
 
+    pub fn observe_all_pub(&mut self, findings: &mut Vec<(usize, ObsClass, String)>) -> [Option<Obs>; 2] {
+        self.observe_all(findings)
+    }
+
     fn observe_all(&mut self, findings: &mut Vec<(usize, ObsClass, String)>) -> [Option<Obs>; 2] {
         let opts = ObsOpts { universe: self.world.cfg.universe, debug_fmt: self.debug_fmt };
         let mut res: [Option<Obs>; 2] = [None, None];
@@ -266,6 +270,12 @@ impl<'e> Sim<'e> {
             return false;
         }
         // ---------------- execute
+        if !domain_ok(&self.world, op, self.env.overhead) {
+            clear_events();
+            self.steps += 1;
+            self.last = pre;
+            return true;
+        }
         begin_step();
         let t0 = n_tokens() as u32;
         let refused0 = alloc::refused_count();
@@ -306,8 +316,17 @@ impl<'e> Sim<'e> {
                 if !documented {
                     match self.relaxed {
                         Some(_) => {
-                            let fp = self.fault_prop;
-                            self.push(fp, "foreign-panic", format!("{} panicked in the cache's own code after the fault: {}", op.kind.name(), msg));
+                            // After a panic in user code the recorded sizes may legitimately be stale
+                            // (the property only promises current_size == sum of *recorded* sizes), so
+                            // size arithmetic of a later mutate can overflow in a build with overflow
+                            // checks. That is not among the things the property rules out; any other
+                            // panic of the cache's own code (unwrap on a missing entry, ...) is.
+                            if msg.contains("overflow") {
+                                self.probes.hit("stale_size_arithmetic_panic_after_fault_tolerated");
+                            } else {
+                                let fp = self.fault_prop;
+                                self.push(fp, "foreign-panic", format!("{} panicked in the cache's own code after the fault: {}", op.kind.name(), msg));
+                            }
                         }
                         None => {
                             let props = if msg.contains("overflow") { C02 | C01 } else { C07 | C04 };
@@ -413,6 +432,11 @@ impl<'e> Sim<'e> {
 
     /// Fast execution without observation or oracles (prefix of fault-enumeration traces).
     pub fn step_unchecked(&mut self, op: &Op) {
+        if !domain_ok(&self.world, op, self.env.overhead) {
+            clear_events();
+            self.steps += 1;
+            return;
+        }
         begin_step();
         let world = &mut self.world;
         let _ = catch_unwind(AssertUnwindSafe(|| exec(world, op)));
